@@ -75,6 +75,13 @@ class C09(Check):
                 ops.append(("write", c))
             if r.random() < 0.4:
                 ops.append(("dir", b"d", Opts()))
+            if j % 2 == 0:
+                # local extra data (written when the extra-data mode ends) and alignment padding
+                import struct as _st
+                rec = _st.pack("<HH", 0xcafe, 40) + bytes(range(1, 41))
+                ops += [("extra", b"x%d" % j, Opts(method=r.choice([0, 8]), large=r.random() < 0.3)), ("write", rec), ("endextra",), ("write", b"after extra data " * 5)]
+                ops += [("aligned", b"al%d" % j, Opts(), r.choice([64, 512, 4096])), ("write", b"aligned")]
+                ops += [("extra", b"y%d" % j, Opts()), ("write", rec), ("endlocal",), ("write", _st.pack("<HH", 0xbeef, 3) + b"abc"), ("endextra",), ("write", b"split")]
             ops.append(("comment", b"short writes"))
             ops.append(("finish",))
             progs.append(ops)
